@@ -228,8 +228,8 @@ fn one_reader_case(sink: &mut Sink, o: &mut Oracle, st: &mut Stats, doc: &[u8], 
     // the cap: breach => Err; inputs <= cap unaffected; bounded pull
     if let Some(cap) = f.cap {
         if !truncated && f.tail == Tail::Eof {
-            // the decoder removes a leading BOM before the count
-            let counted = if doc.starts_with(&[0xEF, 0xBB, 0xBF]) { doc.len() - 3 } else { doc.len() };
+            // the cap applies to the RAW bytes (RawGate in front of the decoder): a byte-order mark counts
+            let counted = doc.len();
             if counted > cap && r.is_ok() { o.fail("C10-cap-breach-accepted", &format!("{} bytes accepted with cap {cap}", doc.len()), doc, &single, "err"); }
             if counted <= cap {
                 sink.count("cap.inactive");
@@ -239,7 +239,70 @@ fn one_reader_case(sink: &mut Sink, o: &mut Oracle, st: &mut Stats, doc: &[u8], 
         }
         let over = pulled_single as i64 - cap as i64;
         if over > st.max_over_cap { st.max_over_cap = over; st.max_over_cap_case = format!("{} len={}", fault_tok(f), doc.len()); }
+        // the raw-byte gate against its model, on documents the scanner reads to their end
+        if !truncated && f.tail == Tail::Eof && baseline_single == "ok" { gate_case(sink, doc, f); }
     }
+}
+
+/// the text the decoder in front of `ChunkedChars` makes of complete raw input: UTF-16 by its mark (the external
+/// decoder needs three bytes to see one), else UTF-8; `None` when the bytes are not a complete well-formed text
+fn decoded_text(raw: &[u8]) -> Option<String> {
+    if raw.len() >= 3 && (raw.starts_with(&[0xFF, 0xFE]) || raw.starts_with(&[0xFE, 0xFF])) {
+        let be = raw[0] == 0xFE;
+        let body = &raw[2..];
+        if body.len() % 2 == 1 { return None; }
+        let units: Vec<u16> = body.chunks(2).map(|c| if be { u16::from_be_bytes([c[0], c[1]]) } else { u16::from_le_bytes([c[0], c[1]]) }).collect();
+        String::from_utf16(&units).ok()
+    } else {
+        std::str::from_utf8(raw).ok().map(|s| s.to_string())
+    }
+}
+
+/// raw input that starts with a UTF-16 mark and ends inside a code unit or right after a high surrogate
+/// (Lean `Spec.Utf16.endsInsideChar`, restated on the Rust side)
+fn utf16_ends_inside_char(raw: &[u8]) -> bool {
+    if !(raw.starts_with(&[0xFF, 0xFE]) || raw.starts_with(&[0xFE, 0xFF])) { return false; }
+    let be = raw[0] == 0xFE;
+    let body = &raw[2..];
+    if body.len() % 2 == 1 { return true; }
+    match body.chunks(2).last() {
+        Some(c) => { let u = if be { u16::from_be_bytes([c[0], c[1]]) } else { u16::from_le_bytes([c[0], c[1]]) }; (0xD800..=0xDBFF).contains(&u) }
+        None => false,
+    }
+}
+
+/// `iofault gate <cap|-> <base 0|1|-> <items>` (how the stream ended, outcome class: what the property demands) and
+/// `iofault gatepull <cap|-> <items>` (bytes pulled): the raw-byte gate of the reader pipeline against `Model/RawGate.lean`.
+/// The caller's reader follows the schedule `items` (`raw[..end]` in pieces of `chunk` bytes, then one failing call for a
+/// `FailOnce` tail). Compared: how the raw stream ended for the pipeline (`eof`, or the kind of the first error found in the
+/// shared cell), the bytes pulled from the caller's reader (hook run: no ring reader in front), and the outcome class of
+/// `from_reader_with_options` — `err` after any fault, otherwise the class `base` of `from_str` on the decoded text.
+/// Only generated when the pipeline is known to read the raw stream to its end and `ChunkedChars` has no error of its own:
+/// the bytes are a complete well-formed text, or UTF-16 cut inside a character.
+fn gate_case(sink: &mut Sink, raw: &[u8], f: &Fault) -> bool {
+    let data = &raw[..f.end.min(raw.len())];
+    let text = decoded_text(data);
+    let inside = utf16_ends_inside_char(data);
+    if text.is_none() && !inside { return false; }
+    let mut items: Vec<RItem> = if f.chunk == usize::MAX { if data.is_empty() { vec![] } else { vec![RItem::Data(data.to_vec())] } }
+        else { data.chunks(f.chunk.max(1)).map(|c| RItem::Data(c.to_vec())).collect() };
+    match f.tail { Tail::Eof => {} Tail::FailOnce(k) | Tail::FailSticky(k) => items.push(RItem::Fail(k)) }
+    let base = match &text {
+        Some(t) => if serde_saphyr::from_str_with_options::<IgnoredAny>(t, opts(None)).is_ok() { "0" } else { "1" },
+        None => "-",
+    };
+    beat(&format!("gate {} {}", fault_tok(f), hex_bytes(raw)));
+    let mut rd = ItemReader::new(&items);
+    let (_items, fired) = h::reader_items_with_cell(&mut rd, f.cap, 200_000);
+    let end = fired.first().map(|x| format!("io{}", x.1)).unwrap_or_else(|| "eof".to_string());
+    let mut rd2 = ItemReader::new(&items);
+    let r = serde_saphyr::from_reader_with_options::<_, IgnoredAny>(&mut rd2, opts(f.cap));
+    let class = if r.is_ok() { "ok" } else { "err" };
+    let cap = f.cap.map(|c| c.to_string()).unwrap_or_else(|| "-".to_string());
+    sink.case(&format!("iofault gate {cap} {base} {}", items_tok(&items)), &format!("{end} {class}"));
+    sink.case(&format!("iofault gatepull {cap} {}", items_tok(&items)), &format!("pulled={}", rd.pulled));
+    sink.count(&format!("gate.{}", if end == "eof" { "eof" } else { "fault" }));
+    true
 }
 
 /// documents without tags / merge keys (so that the `IgnoredAny` consumer has no error of its own) and
@@ -356,6 +419,129 @@ struct WrapDoc { id: u32, items: Wrap<Vec<Wrap<String>>>, meta: Wrap<BTreeMap<St
 #[derive(serde::Serialize)]
 struct Rec { name: String, n: i32, tags: Vec<String>, nested: BTreeMap<String, Option<f64>> }
 
+/// UTF-16 (LE / BE) and UTF-8 with / without byte-order mark through the raw-byte gate: cuts at every byte position, caps on the
+/// RAW length, against the gate model (`iofault gate` / `gatepull`) and the implementation-only statements of C10
+fn raw_gate_families(sink: &mut Sink, o: &mut Oracle, st: &mut Stats, allowance: i64, nontrivial: &mut u64) {
+    // ---- UTF-16 input (decoded by the external encoding_rs_io layer in front of the repo's reassembler; RawGate in front of
+    // that layer): truncation inside a code unit / a surrogate pair must be an error for EVERY such cut, and the cap bounds the
+    // RAW bytes pulled.  Every cut position x chunkings {1, 3, whole} also runs against the gate model (`iofault gate`).
+    for (ti, text) in ["a: xyz", "k: [1, 2]\nname: v\u{e9}\n", "a: x\u{1F600}", "- \u{20ac}uro\n- b\n", "s: \u{1F600}y\n", "\u{1F600}: \u{10FFFF}\u{10000}", "a: \u{65e5}\u{672c}\u{8a9e}\u{65e5}\u{672c}\u{8a9e}"].into_iter().enumerate() {
+        for be in [false, true] {
+            let mut raw: Vec<u8> = if be { vec![0xFE, 0xFF] } else { vec![0xFF, 0xFE] };
+            for u in text.encode_utf16() { raw.extend_from_slice(&(if be { u.to_be_bytes() } else { u.to_le_bytes() })); }
+            let n = raw.len();
+            let full = serde_saphyr::from_reader_with_options::<_, serde_json::Value>(SchedReader::whole(&raw), opts(None));
+            sink.count("utf16.docs");
+            if full.is_err() { o.fail("C10-utf16-full-rejected", "complete UTF-16 input with BOM rejected", &raw, "err", "ok"); continue; }
+            // (a) every cut position: inside a code unit (odd length after the mark) or inside a surrogate pair (after the
+            // high half) => Err from every entry point, with every chunking (1-byte reads included)
+            for k in 0..=n {
+                let inside = utf16_ends_inside_char(&raw[..k]);
+                for chunk in [1usize, 3, usize::MAX] {
+                    let f = Fault { end: k, tail: Tail::Eof, cap: None, chunk };
+                    if gate_case(sink, &raw, &f) { *nontrivial += 1; }
+                    // a failing call after a cut at a character boundary (inside a character the end-of-input error of the next
+                    // call replaces the reader's own error in the cell before anyone looks: not a gate observation)
+                    if k < n && k >= 3 && !inside && chunk == 1 { gate_case(sink, &raw, &Fault { tail: Tail::FailOnce(0), ..f }); }
+                    if !inside { continue; }
+                    let r = serde_saphyr::from_reader_with_options::<_, serde_json::Value>(SchedReader::new(&raw, &[], chunk, k, Tail::Eof), opts(None));
+                    sink.count("utf16.truncated_inside_character");
+                    *nontrivial += 1;
+                    if let Ok(v) = &r {
+                        o.fail("C10-utf16-truncated-lossy", &format!("UTF-16{} input cut at byte {k} of {n} (inside a code unit or surrogate pair, chunk {}) returned a value", if be { "BE" } else { "LE" }, if chunk == usize::MAX { 0 } else { chunk }), &raw[..k], &format!("ok {v}"), "err");
+                    }
+                    let rc = serde_saphyr::with_deserializer_from_reader_with_options(SchedReader::new(&raw, &[], chunk, k, Tail::Eof), opts(None), |d| <IgnoredAny as serde::Deserialize>::deserialize(d));
+                    if rc.is_ok() { o.fail("C10-utf16-truncated-lossy", &format!("with_deserializer_from_reader: UTF-16 input cut at byte {k} of {n} (inside a character) returned a value"), &raw[..k], "ok", "err"); }
+                    let mut rd = SchedReader::new(&raw, &[], chunk, k, Tail::Eof);
+                    let its: Vec<bool> = serde_saphyr::read_with_options::<_, serde_json::Value>(&mut rd, opts(None)).take(100).map(|x| x.is_ok()).collect();
+                    if !its.iter().any(|ok| !ok) { o.fail("C10-utf16-truncated-lossy", &format!("read: UTF-16 input cut at byte {k} of {n} (inside a character) yielded no Err item"), &raw[..k], &format!("{its:?}"), "an Err item"); }
+                }
+            }
+            // (b) caps around the RAW length (and tiny ones): raw > cap => Err, raw <= cap => as without a cap; pull bounded
+            for cap in [0usize, 2, 3, n / 2, n - 2, n - 1, n, n + 1] {
+                for chunk in [1usize, usize::MAX] {
+                    let f = Fault { end: n, tail: Tail::Eof, cap: Some(cap), chunk };
+                    // the DECODED text is longer than the raw input when characters of three UTF-8 bytes dominate: ChunkedChars'
+                    // own count of decoded bytes then refuses an input whose raw size fits (its own error, not the gate's)
+                    let decoded_over = n <= cap && text.len() > cap;
+                    if !decoded_over { gate_case(sink, &raw, &f); }
+                    let mut rd = SchedReader::new(&raw, &[], chunk, n, Tail::Eof);
+                    let r = serde_saphyr::from_reader_with_options::<_, serde_json::Value>(&mut rd, opts(Some(cap)));
+                    sink.count("utf16.cap_runs");
+                    *nontrivial += 1;
+                    if n > cap && r.is_ok() { o.fail("C10-utf16-cap-counts-decoded", &format!("UTF-16 input of {n} raw bytes accepted under cap {cap}"), &raw, "ok", "err"); }
+                    if n <= cap && r.is_err() {
+                        if decoded_over { o.fail("C10-utf16-decoded-cap-rejects-small-input", &format!("UTF-16 input of {n} raw bytes ({} bytes once decoded to UTF-8) refused under cap {cap} >= {n}", text.len()), &raw, "err", "ok"); }
+                        else { o.fail("C10-cap-affects-small-input", &format!("cap {cap} >= {n} raw bytes changes from_reader (UTF-16)"), &raw, "err", "ok"); }
+                    }
+                    if rd.pulled as i64 - cap as i64 > allowance { o.fail("C10-utf16-cap-counts-decoded", &format!("UTF-16 input of {n} raw bytes under cap {cap}: {} bytes pulled from the reader", rd.pulled), &raw, &format!("pulled={}", rd.pulled), &format!("pulled <= cap + {allowance}")); }
+                }
+            }
+            // (c) a long UTF-16 input whose DECODED size fits the cap while its raw size is twice that: refused, pull bounded
+            if ti == 1 {
+                let mut big = String::new();
+                for i in 0..3000 { big.push_str(&format!("key{i}: value number {i}\n")); }
+                let mut rawb: Vec<u8> = if be { vec![0xFE, 0xFF] } else { vec![0xFF, 0xFE] };
+                for u in big.encode_utf16() { rawb.extend_from_slice(&(if be { u.to_be_bytes() } else { u.to_le_bytes() })); }
+                for (cap, chunk) in [(big.len() + 16, 4096usize), (big.len() + 16, 1), (rawb.len() - 1, usize::MAX), (rawb.len(), 4096), (rawb.len() + 1, 1)] {
+                    beat("utf16 long");
+                    let mut rd = SchedReader::new(&rawb, &[], chunk, rawb.len(), Tail::Eof);
+                    let r = serde_saphyr::from_reader_with_options::<_, IgnoredAny>(&mut rd, opts(Some(cap)));
+                    sink.count("utf16.cap_runs");
+                    if rawb.len() > cap && r.is_ok() { o.fail("C10-utf16-cap-counts-decoded", &format!("UTF-16 input of {} raw bytes accepted under cap {cap}: {} bytes pulled from the reader", rawb.len(), rd.pulled), b"(generated UTF-16 mapping)", &format!("ok pulled={}", rd.pulled), "err"); }
+                    if rawb.len() <= cap && r.is_err() { o.fail("C10-cap-affects-small-input", &format!("cap {cap} >= {} raw bytes changes from_reader (long UTF-16)", rawb.len()), b"(generated UTF-16 mapping)", "err", "ok"); }
+                    if rd.pulled as i64 - cap as i64 > allowance {
+                        o.fail("C10-utf16-cap-counts-decoded", &format!("UTF-16 input of {} raw bytes under cap {cap}: {} bytes pulled from the reader", rawb.len(), rd.pulled), b"(generated UTF-16 mapping)", &format!("pulled={}", rd.pulled), &format!("pulled <= cap + {allowance}"));
+                    }
+                    let over = rd.pulled as i64 - cap as i64;
+                    if over > st.max_over_cap { st.max_over_cap = over; st.max_over_cap_case = format!("long UTF-16 input cap={cap} chunk={chunk}"); }
+                    gate_case(sink, &rawb, &Fault { end: rawb.len(), tail: Tail::Eof, cap: Some(cap), chunk });
+                }
+            }
+        }
+    }
+    // ---- UTF-8 with and without its byte-order mark: caps equal to the RAW length -1 / 0 / +1 (the mark counts: the cap is on
+    // raw bytes), 1-byte and whole reads; against the gate model and the statement "raw > cap => Err, raw <= cap => unaffected"
+    for text in ["a: xyz", "k: \u{e9}\u{20ac}\u{1F600}\n", "- a\n- [b, c]\n"] {
+        for with_bom in [false, true] {
+            let raw: Vec<u8> = if with_bom { [&[0xEF, 0xBB, 0xBF][..], text.as_bytes()].concat() } else { text.as_bytes().to_vec() };
+            let n = raw.len();
+            sink.count("utf8.bom_docs");
+            for cap in [0usize, 1, 2, 3, 4, n - 4, n - 3, n - 2, n - 1, n, n + 1] {
+                for chunk in [1usize, 2, usize::MAX] {
+                    let f = Fault { end: n, tail: Tail::Eof, cap: Some(cap), chunk };
+                    gate_case(sink, &raw, &f);
+                    let mut rd = SchedReader::new(&raw, &[], chunk, n, Tail::Eof);
+                    let r = serde_saphyr::from_reader_with_options::<_, serde_json::Value>(&mut rd, opts(Some(cap)));
+                    sink.count("utf8.cap_runs");
+                    *nontrivial += 1;
+                    if n > cap && r.is_ok() { o.fail("C10-cap-breach-accepted", &format!("UTF-8 input{} of {n} raw bytes accepted under cap {cap}", if with_bom { " with BOM" } else { "" }), &raw, "ok", "err"); }
+                    if n <= cap && r.is_err() { o.fail("C10-cap-affects-small-input", &format!("cap {cap} >= {n} raw bytes changes from_reader (UTF-8{})", if with_bom { " with BOM" } else { "" }), &raw, "err", "ok"); }
+                    if rd.pulled as i64 - cap as i64 > allowance { o.fail("C10-cap-pull-bound", "bytes pulled beyond the cap exceed the fixed allowance", &raw, &format!("pulled={} cap={cap}", rd.pulled), &format!("<= cap + {allowance}")); }
+                }
+            }
+            // every cut at a character boundary, no cap: the gate is transparent
+            for k in 0..=n {
+                for chunk in [1usize, usize::MAX] { gate_case(sink, &raw, &Fault { end: k, tail: Tail::Eof, cap: None, chunk }); }
+            }
+            // every cut INSIDE a multi-byte character of UTF-8 input that starts with a byte-order mark: an error, as without the
+            // mark (the external decoder transcodes marked UTF-8 input with replacement instead of passing it through)
+            if with_bom {
+                for k in 4..n {
+                    if std::str::from_utf8(&raw[..k]).is_ok() { continue; }
+                    for chunk in [1usize, usize::MAX] {
+                        let r = serde_saphyr::from_reader_with_options::<_, serde_json::Value>(SchedReader::new(&raw, &[], chunk, k, Tail::Eof), opts(None));
+                        sink.count("utf8.bom_truncated_inside_character");
+                        *nontrivial += 1;
+                        if let Ok(v) = &r { o.fail("C10-utf8-bom-truncated-lossy", &format!("UTF-8 input with byte-order mark cut at byte {k} of {n} (inside a multi-byte character) returned a value"), &raw[..k], &format!("ok {v}"), "err"); }
+                    }
+                }
+            }
+        }
+    }
+
+}
+
 fn generate(a: &Args) -> i32 {
     start_watchdog(20);
     let mut rng = Rng::new(a.seed);
@@ -365,6 +551,10 @@ fn generate(a: &Args) -> i32 {
     let mut st = Stats { max_over_cap: i64::MIN, max_over_cap_case: String::new() };
     let docs = corpus(&mut rng, a.thorough);
     let mut nontrivial = 0u64;
+    // fixed allowance: the one byte RawGate takes beyond the cap (to tell "exactly cap bytes" from "more": raw_pull_bound)
+    // + the diagnostic read-ahead of the ring reader in front of it (error snippets; MAX_READ_AHEAD = 1 KiB)
+    let allowance: i64 = 1 + h::MAX_READ_AHEAD_HOOK as i64;
+    raw_gate_families(&mut sink, &mut o, &mut st, allowance, &mut nontrivial);
     for d in &docs {
         sink.count("reader.docs");
         let n = d.len();
@@ -420,49 +610,8 @@ fn generate(a: &Args) -> i32 {
             if over > st.max_over_cap { st.max_over_cap = over; st.max_over_cap_case = format!("long input cap={cap} chunk={chunk}"); }
         }
     }
-    // fixed allowance: BufReader (8 KiB) + decoder buffer (8 KiB) + diagnostic read-ahead of the ring reader (1 KiB) + one code point
-    let allowance: i64 = 8192 + 8192 + 1024 + 4;
     if st.max_over_cap > allowance {
         o.fail("C10-cap-pull-bound", "bytes pulled beyond the cap exceed the fixed allowance", st.max_over_cap_case.as_bytes(), &st.max_over_cap.to_string(), &format!("<= {allowance}"));
-    }
-
-    // ---- UTF-16 input (decoded by the external encoding_rs_io layer in front of the repo's reassembler):
-    // truncation inside a code unit / a surrogate pair must be an error, and the cap bounds the bytes PULLED
-    for (ti, text) in ["a: xyz", "k: [1, 2]\nname: v\u{e9}\n", "a: x\u{1F600}", "- \u{20ac}uro\n- b\n"].into_iter().enumerate() {
-        for be in [false, true] {
-            let mut raw: Vec<u8> = if be { vec![0xFE, 0xFF] } else { vec![0xFF, 0xFE] };
-            for u in text.encode_utf16() { raw.extend_from_slice(&(if be { u.to_be_bytes() } else { u.to_le_bytes() })); }
-            let full = serde_saphyr::from_reader_with_options::<_, serde_json::Value>(SchedReader::whole(&raw), opts(None));
-            sink.count("utf16.docs");
-            if full.is_err() { o.fail("C10-utf16-full-rejected", "complete UTF-16 input with BOM rejected", &raw, "err", "ok"); continue; }
-            // (a) cut inside a code unit (odd length) and inside a surrogate pair (after the high surrogate)
-            let mut cuts: Vec<usize> = (3..raw.len()).filter(|k| k % 2 == 1).collect();
-            let units: Vec<u16> = text.encode_utf16().collect();
-            for (i, u) in units.iter().enumerate() { if (0xD800..0xDC00).contains(u) { cuts.push(2 + 2 * (i + 1)); } }
-            for k in cuts {
-                let r = serde_saphyr::from_reader_with_options::<_, serde_json::Value>(SchedReader::whole(&raw[..k]), opts(None));
-                sink.count("utf16.truncated_inside_character");
-                nontrivial += 1;
-                if let Ok(v) = &r {
-                    o.fail("C10-utf16-truncated-lossy", &format!("UTF-16{} input cut at byte {k} of {} (inside a code unit or surrogate pair) returned a value", if be { "BE" } else { "LE" }, raw.len()), &raw[..k], &format!("ok {v}"), "err");
-                }
-            }
-            // (b) the cap counts decoded UTF-8 bytes: a UTF-16 input is pulled to about twice the cap
-            if ti == 1 {
-                let mut big = String::new();
-                for i in 0..3000 { big.push_str(&format!("key{i}: value number {i}\n")); }
-                let mut rawb: Vec<u8> = if be { vec![0xFE, 0xFF] } else { vec![0xFF, 0xFE] };
-                for u in big.encode_utf16() { rawb.extend_from_slice(&(if be { u.to_be_bytes() } else { u.to_le_bytes() })); }
-                let cap = big.len() + 16;          // decoded size fits, raw size is twice that
-                let mut rd = SchedReader::new(&rawb, &[], 4096, rawb.len(), Tail::Eof);
-                let r = serde_saphyr::from_reader_with_options::<_, IgnoredAny>(&mut rd, opts(Some(cap)));
-                sink.count("utf16.cap_runs");
-                let allowance: i64 = 8192 + 8192 + 1024 + 4;
-                if r.is_ok() && rd.pulled as i64 - cap as i64 > allowance {
-                    o.fail("C10-utf16-cap-counts-decoded", &format!("UTF-16 input of {} raw bytes accepted under cap {cap}: {} bytes pulled from the reader", rawb.len(), rd.pulled), b"(generated UTF-16 mapping)", &format!("ok pulled={}", rd.pulled), &format!("err, or pulled <= cap + {allowance}"));
-                }
-            }
-        }
     }
 
     // ---- typed consumers (merge keys with list values, aliases, nested containers): faults that set the error cell only ONCE —
@@ -543,7 +692,7 @@ fn generate(a: &Args) -> i32 {
         "measured_max_pull_beyond_cap": st.max_over_cap,
         "measured_max_pull_beyond_cap_case": st.max_over_cap_case,
         "allowance_bound_checked": allowance,
-        "rule": "reader side: hand corpus + generated tag-free/merge-free multi-document streams (incl. `%` directive lines, so that faults and caps cut the input inside a directive) x EVERY fault position k in 0..=len (48 sampled positions for longer documents in quick tier) x {reader fails forever with kind Other, fails once (Other, ConnectionReset), clean EOF at k (includes EOF inside a code point), fails with kind UnexpectedEof forever/once} x chunkings {1, 3, whole} and x every cap in 0..=len+2 x chunkings {1, whole}; for each configuration the hook reader_items_with_cell gives the parser items and the pulls at which the error cell was set; compared with the Lean protocol model: result of from_reader_with_options::<IgnoredAny> (ok / error kind), the item list of read_with_options::<IgnoredAny> (ok / error kind per item). Oracle: cell set or cap breach or EOF inside a code point => Err (single) / an Err item (iterator); closure reader helper = from_reader; cap >= length changes nothing; bytes pulled <= cap + allowance (measured on a 150 KB input with caps 0..64 KiB); a reader error of any kind => Err. writer side: fault-free write calls recorded, then for every k the k-th write fails (kinds Other, BrokenPipe), plus random schedules of short writes / Interrupted / zero-length accepts; compared with the model: result kind and accepted bytes; oracle: accepted bytes are a prefix of the fault-free output, Err is the I/O error. Non-trivial = reader configurations with a fault or an active cap.",
+        "rule": "reader side: hand corpus + generated tag-free/merge-free multi-document streams (incl. `%` directive lines, so that faults and caps cut the input inside a directive) x EVERY fault position k in 0..=len (48 sampled positions for longer documents in quick tier) x {reader fails forever with kind Other, fails once (Other, ConnectionReset), clean EOF at k (includes EOF inside a code point), fails with kind UnexpectedEof forever/once} x chunkings {1, 3, whole} and x every cap in 0..=len+2 x chunkings {1, whole}; for each configuration the hook reader_items_with_cell gives the parser items and the pulls at which the error cell was set; compared with the Lean protocol model: result of from_reader_with_options::<IgnoredAny> (ok / error kind), the item list of read_with_options::<IgnoredAny> (ok / error kind per item). Oracle: cell set or cap breach or EOF inside a code point => Err (single) / an Err item (iterator); closure reader helper = from_reader; cap >= length changes nothing; bytes pulled <= cap + allowance (= 1 probe byte of RawGate + 1 KiB diagnostic read-ahead of the ring reader; measured on a 150 KB input with caps 0..64 KiB, with and without BOM, and on a 157 KB UTF-16 input); a reader error of any kind => Err. Raw-byte gate (`iofault gate`): UTF-16 LE/BE texts (incl. surrogate pairs in the middle / at the end) cut at EVERY byte position x chunkings {1, 3, whole} (+ a failing call after the cut), caps {0, 2, 3, n/2, n-2, n-1, n, n+1} on the RAW length, UTF-8 with and without BOM x caps raw-4..raw+1 x chunkings {1, 2, whole}, and every corpus document x every cap: compared with Model/RawGate.lean: how the raw stream ended (eof / kind of the first error in the cell), bytes pulled from the caller's reader, outcome class (err after a fault, else the class of from_str on the decoded text); oracle: EVERY UTF-16 cut inside a code unit or after a high surrogate => Err from from_reader / closure reader / an Err item from read; raw > cap => Err, raw <= cap => unaffected. writer side: fault-free write calls recorded, then for every k the k-th write fails (kinds Other, BrokenPipe), plus random schedules of short writes / Interrupted / zero-length accepts; compared with the model: result kind and accepted bytes; oracle: accepted bytes are a prefix of the fault-free output, Err is the I/O error. Non-trivial = reader configurations with a fault or an active cap.",
     }));
     0
 }
@@ -563,5 +712,20 @@ fn probe(_a: &Args) -> i32 {
         };
         println!("read {:?} end={} tail={:?} cap={:?} => items {:?} pulled={}", text, end, tail, cap, items, rd.pulled);
     }
+    // raw bytes through the whole pipeline
+    let show = |label: &str, raw: &[u8], cap: Option<usize>, chunk: usize| {
+        let mut rd = SchedReader::new(raw, &[], chunk, raw.len(), Tail::Eof);
+        let r = serde_saphyr::from_reader_with_options::<_, serde_json::Value>(&mut rd, opts(cap));
+        let (_, fired) = h::reader_items_with_cell(SchedReader::new(raw, &[], chunk, raw.len(), Tail::Eof), cap, 1000);
+        println!("{label} raw={} cap={cap:?} chunk={chunk} => {} pulled={} fired={}", hex_bytes(raw), match &r { Ok(v) => format!("Ok({v})"), Err(e) => format!("Err({})", err_kind(e)) }, rd.pulled, fires_tok(&fired));
+    };
+    show("utf8-bom cut inside é", b"\xEF\xBB\xBFa: \xC3", None, usize::MAX);
+    show("utf8-bom invalid byte", b"\xEF\xBB\xBFa: \xFFz", None, usize::MAX);
+    show("utf8 cut inside é", b"a: \xC3", None, usize::MAX);
+    let mut cjk: Vec<u8> = vec![0xFF, 0xFE];
+    for u in "a: \u{65e5}\u{672c}\u{8a9e}\u{65e5}\u{672c}\u{8a9e}".encode_utf16() { cjk.extend_from_slice(&u.to_le_bytes()); }
+    for cap in [cjk.len() - 1, cjk.len(), cjk.len() + 1, cjk.len() + 4, 21] { show("utf16 cjk", &cjk, Some(cap), usize::MAX); show("utf16 cjk", &cjk, Some(cap), 1); }
+    show("utf16 bom only", &[0xFF, 0xFE], None, 1);
+    show("utf16 bom + 1", &[0xFF, 0xFE, 0x61], None, 1);
     0
 }
